@@ -6,16 +6,23 @@ import AioftpModel.Model.Session
 namespace DriverAbort
 open Codec Model Model.Abort Generated
 
+def posOf : String → Option Pos
+  | "none" => some Pos.none
+  | "wait" => some Pos.waitData
+  | "body" => some Pos.inBody
+  | "unreaped" => some Pos.finishedUnreaped
+  | _ => none
+
 def handleAbort : List String → Option String
   | [verb, pos] => do
     let v ← Session.verbOf verb.toList
-    let p ← match pos with
-      | "none" => some Pos.none
-      | "wait" => some Pos.waitData
-      | "body" => some Pos.inBody
-      | "unreaped" => some Pos.finishedUnreaped
-      | _ => none
+    let p ← posOf pos
     let o := abor v.workerGuards p
+    pure s!"replies={encNats o.replies} alive={encBool o.alive}"
+  | "many" :: verb :: poss => do
+    let v ← Session.verbOf verb.toList
+    let ps ← poss.mapM posOf
+    let o := aborMany v.workerGuards ps
     pure s!"replies={encNats o.replies} alive={encBool o.alive}"
   | _ => none
 
